@@ -66,6 +66,11 @@ pub(crate) fn execute_with_stream<'i>(
     last_instruction: Option<Rc<Instruction<'i>>>,
 ) -> ExecutionResult<()> {
     let fold_id = exec_ctx.tracker.meet_fold_stream();
+    #[cfg(aquavm_verif)]
+    crate::verif_hooks::emit(crate::verif_hooks::Event::FoldStart {
+        fold_id,
+        name: fold_to_string.to_string(),
+    });
 
     trace_to_exec_err!(trace_ctx.meet_fold_start(fold_id), fold_to_string)?;
 
@@ -90,6 +95,8 @@ pub(crate) fn execute_with_stream<'i>(
     }
 
     observer.update_completeness(exec_ctx);
+    #[cfg(aquavm_verif)]
+    crate::verif_hooks::emit(crate::verif_hooks::Event::FoldEnd { fold_id });
     trace_to_exec_err!(trace_ctx.meet_fold_end(fold_id), fold_to_string)?;
     Ok(())
 }
@@ -115,6 +122,12 @@ fn execute_iterations<'i>(
             None => continue,
         };
         let value_pos = value.pos();
+        #[cfg(aquavm_verif)]
+        crate::verif_hooks::emit(crate::verif_hooks::Event::FoldIteration {
+            fold_id: ingredients.fold_id,
+            value_pos: value_pos.into(),
+            value: value.into_resolved_result().get_result().to_string(),
+        });
         trace_to_exec_err!(
             trace_ctx.meet_iteration_start(ingredients.fold_id, value_pos),
             fold_to_string
